@@ -122,7 +122,7 @@ def _makefile(flavor, bdir):
         if name == "sched_perturb":
             continue
         extra = ""
-        if flavor in ("tsan", "plain", "asan") and name in ("queue_monitor",):
+        if name in ("queue_monitor",):
             extra = " lib/h-sched_perturb.o"
         lines.append("lib/h-%s.o: %s/harness/%s\n\t$(CXX) $(CXXFLAGS) -I%s/tools -c -o $@ $<" % (name, VERIF, src, REPO))
         lines.append("bin/%s: lib/h-%s.o%s libabigail.a\n\t$(CXX) $(LDFLAGS) -pthread -rdynamic -o $@ $<%s libabigail.a $(LIBS)" % (name, name, extra, extra))
